@@ -62,6 +62,9 @@ def is_seq_like(v):
 def binop(I, op, a, b):
     a = I.resolve_opt(a)
     b = I.resolve_opt(b)
+    from . import symset as _ss
+    if (isinstance(a, _ss.SSet) and _ss.is_strset_like(b)) or (isinstance(b, _ss.SSet) and _ss.is_strset_like(a)):
+        return _ss.binop(I, op, a, b)
     if not is_symbolic(a) and not is_symbolic(b) and not _has_sym(a) and not _has_sym(b):
         try:
             return _native_binop(op, a, b)
@@ -257,6 +260,12 @@ def compare(I, op, a, b):
     b = I.resolve_opt(b) if isinstance(b, SOpt) and op not in ('Eq', 'NotEq') else b
     if op not in ('Eq', 'NotEq'):
         a, b = I.resolve_enum(a), I.resolve_enum(b)
+    from . import symset as _ss
+    if (isinstance(a, _ss.SSet) and _ss.is_strset_like(b)) or (isinstance(b, _ss.SSet) and _ss.is_strset_like(a)):
+        if op == 'NotEq':
+            r = _ss.compare(I, 'Eq', a, b)
+            return (not r) if isinstance(r, bool) else lower_bool(z3.Not(bool_term(r)))
+        return _ss.compare(I, op, a, b)
     if op in ('Eq', 'NotEq'):
         r = equals(I, a, b)
         if op == 'Eq':
@@ -522,6 +531,16 @@ def int_term_e(e):
 def contains(I, container, item):
     container = I.resolve_opt(container)
     from .sym import SDict
+    from . import symset as _ss
+    if isinstance(container, _ss.SSet):
+        return _ss.contains(I, container, I.resolve_opt(item))
+    if isinstance(container, _pyvc().SList):
+        base = container
+        while getattr(base, 'op', None) == 'sorted':
+            base = base.base
+        od = getattr(base, 'of_dict', None)
+        if od is not None and od[1] == 'keys':
+            container = od[0]          # membership in (the sorted list of) a dictionary's keys
     if isinstance(container, SDict):
         from .builtins_model import sdict_get
         return lower_bool(z3.Not(sdict_get(I, container, item).isnone))
@@ -775,6 +794,27 @@ def index(I, v, idx):
                 return e if isinstance(e, int) else SInt(e, s.taint)
             return seq_lower(SSeq('str', [('u', [e])], s.taint))
         raise OutOfFragment("symbolic index into sequence")
+    import enum as _enum
+    if isinstance(v, type) and issubclass(v, _enum.Enum) and isinstance(idx, (SInt, SBool)):
+        I.path.event('enum.lookup', v, idx, False)       # member names are strings
+        I.raise_py(KeyError, idx)
+    if isinstance(v, type) and issubclass(v, _enum.Enum) and not is_symbolic(idx) and not isinstance(idx, str):
+        I.path.event('enum.lookup', v, idx, False)
+        try:
+            hash(idx)
+        except TypeError as e:
+            I.raise_py(TypeError, *e.args)
+        I.raise_py(KeyError, idx)
+    if isinstance(v, type) and issubclass(v, _enum.Enum) and isinstance(idx, (SSeq, Opaque)):
+        # EnumClass[name] with an unknown name: some member, or KeyError
+        found = I.path.choose(2, "enum-name-known") == 0
+        if isinstance(idx, Opaque) and I.pytype(idx) not in (None, str):
+            found = False
+        I.path.event('enum.lookup', v, idx, found)
+        if not found:
+            I.raise_py(KeyError, idx)
+        from .modular import make_symbolic
+        return make_symbolic(I, ('enum', v), "%s[...]" % v.__name__)
     if isinstance(v, Opaque):
         return Opaque('object', v.name + '[]', v.taint)
     if isinstance(v, Obj):
@@ -826,10 +866,19 @@ def setitem(I, obj, idx, value):
         # (symbolic keys), so they are forgotten; the entry for k itself is now known
         from .builtins_model import key_identity
         kid, key = key_identity(I, idx)
+        from .builtins_model import sdict_get
+        was_absent = sdict_get(I, obj, idx).isnone       # known before the write (for trace predicates)
+        obj.freeze_initial()
         obj.memo.clear()
         obj.keys_.clear()
         obj.memo[kid] = SOpt(z3.BoolVal(False), value)
         obj.keys_[kid] = key
+        if obj.keyset is not None and isinstance(key, (str, SSeq)):
+            from . import symset
+            obj.keyset = z3.SetAdd(obj.keyset, symset.elem_term(key))
+            obj.empty = z3.BoolVal(False)
+        I.path.event('dict.set', id(obj), obj.name, idx, value, was_absent)
+        obj.version = getattr(obj, 'version', 0) + 1
         return
     if isinstance(obj, dict):
         obj[I.hashable(idx)] = value
@@ -871,7 +920,15 @@ def delitem(I, obj, idx):
             I.raise_py(KeyError, idx)
         # the key is gone afterwards (other keys keep what was learnt about them)
         kid = ('c', idx)
+        obj.freeze_initial()
         obj.memo[kid] = SOpt(z3.BoolVal(True), ent.v)
+        if obj.keyset is not None and isinstance(idx, str):
+            from . import symset
+            obj.keyset = z3.SetDel(obj.keyset, symset.elem_term(idx))
+            obj.empty = fresh("empty_" + obj.name, z3.BoolSort())
+            I.path.assume(obj.empty == (obj.keyset == symset.EMPTY))
+        I.path.event('dict.del', id(obj), obj.name, idx, None)
+        obj.version = getattr(obj, 'version', 0) + 1
         return
     raise OutOfFragment("delitem on %r" % (obj,))
 
